@@ -6,9 +6,12 @@ MC_Absent == {"x", "y"}
 MC_Keys   == {"K1", "K2"}
 MC_Pool5  == <<"a", "b", "c", "d", "e">>
 MC_AllN   == 1..65535
-\* the entry counts the harness compiles, the neighbourhood of the guint16 boundary, powers of two
+\* the entry counts the harness compiles, round-0's numbers, powers of two
 MC_ChosenN == {1, 2, 3, 4, 7, 8, 9, 255, 256, 257, 1000, 4096, 20000, 32767, 32768, 33000, 40000, 65534, 65535}
-              \cup (27900..27950) \cup {2^k : k \in 0..15} \cup {2^k - 1 : k \in 1..16}
-\* smallest failing n claimed by the harness (it takes it from TLC's counterexample of DirIndex_size16.cfg)
+              \cup {2^k : k \in 0..15} \cup {2^k - 1 : k \in 1..16}
+\* smallest n that cannot be built, as claimed by the harness: it takes it from TLC's own counterexample
+\* (DirIndex_bisect16.cfg / DirIndex_size16_t.cfg) and hands it back through the environment
 MC_Boundary == IF "C14_BOUNDARY" \in DOMAIN IOEnv THEN atoi(IOEnv.C14_BOUNDARY) ELSE 0
+\* quick tier: the chosen entry counts plus the neighbourhood of that boundary
+MC_NearBoundary == MC_ChosenN \cup {m \in (MC_Boundary - 300)..(MC_Boundary + 300) : m >= 1 /\ m <= 65535}
 =============================================================================
